@@ -231,6 +231,17 @@ class Check(BaseCheck):
                     ok = np.array_equal(np.array([[float(x) for x in c] for c in cols]).T, np.asarray(bd["Eigenvectors"]).reshape(n, k))
                 if not ok:
                     fails.append(core.Failure("correspondence", "read_ev vs model", "parsed contents differ", dict(kind="ev", lines=lines)))
+                    continue
+                # history: the dictionary that read_ev returned, cropped to fewer modes by its user, is written again
+                d2 = crop_ev(bd, d)
+                if d2 is not None:
+                    lio.write_ev(p, d2)
+                    lines2 = file_lines(p)
+                    stats.case("ev-history" + str(sorted(d)) + str(np.shape(d2.get("Eigenvectors", []))), cls="ev-history:read,crop,write")
+                    r2 = wire.Reply(drv.ask("io_write_ev %s" % ev_arg({k: v for k, v in d2.items() if k in d})))
+                    if r2.status != "ok" or read_strs(r2) != lines2:
+                        fails.append(core.Failure("correspondence", "write_ev of a cropped read_ev dictionary vs model", "fields %s" % sorted(d2),
+                                                  dict(kind="ev", d={k: (np.asarray(v).tolist() if k.startswith("Eigen") else v) for k, v in d.items()})))
             # vfunc
             for n in (1, 2, 7):
                 vals = rng.normal(size=n).astype(np.float32 if n == 2 else np.float64)
@@ -308,6 +319,18 @@ class Check(BaseCheck):
                             return core.Violation("ev", "eigenvalues not read back bit-exactly", dict(kind="ev", fields=sorted(d)))
                     elif b.get(k) != val:
                         return core.Violation("ev", "field %s not read back (%r vs %r)" % (k, b.get(k), val), dict(kind="ev", fields=sorted(d)))
+                # history: read, crop to fewer modes, write again, read again
+                d2 = crop_ev(b, d)
+                if d2 is not None:
+                    lio.write_ev(p, d2)
+                    back2 = core.call(lio.read_ev, p)
+                    if back2[0] != "ok":
+                        return core.Violation("ev", "read_ev raised %s on a file written from a cropped read_ev dictionary" % (back2[1:],), dict(kind="ev", fields=sorted(d)))
+                    b2 = back2[1]
+                    for k in ("Eigenvalues", "Eigenvectors"):
+                        if k in d2 and (k not in b2 or not np.array_equal(np.asarray(b2[k]).reshape(np.shape(d2[k])), np.asarray(d2[k]))):
+                            return core.Violation("ev", "%s of a dictionary that came from read_ev and was cropped to %s are not read back after write_ev"
+                                                  % (k.lower(), np.shape(d2[k]),), dict(kind="ev", fields=sorted(d)))
                 vals = np.array([1.5, -2.25, 1e-7, 3.0])
                 p2 = tmp.path("a.psol"); lio.write_vfunc(p2, vals)
                 r = core.call(lio.read_vfunc, p2)
@@ -434,6 +457,24 @@ def foreign_expected(rng):
 def foreign_files(rng):
     for kind, lines, nm, _ in foreign_expected(rng):
         yield kind, lines, nm
+
+
+def crop_ev(back, orig):
+    """what a user does with a spectrum loaded by read_ev: keep fewer modes (all keys the reader added stay in the dictionary)"""
+    if "Eigenvectors" not in back or "Eigenvalues" not in back:
+        return None
+    ev = np.asarray(back["Eigenvectors"]); lam = np.asarray(back["Eigenvalues"]).reshape(-1)
+    if ev.ndim != 2:
+        ev = ev.reshape(np.shape(orig["Eigenvectors"]))
+    n, k = ev.shape
+    d2 = dict(back)
+    if k >= 2:
+        d2["Eigenvalues"] = lam[:k - 1].copy(); d2["Eigenvectors"] = ev[:, :k - 1].copy()
+    elif n >= 2:
+        d2["Eigenvectors"] = ev[:n - 1, :].copy()
+    else:
+        return None
+    return d2
 
 
 def ev_cases(rng, n):
